@@ -85,14 +85,15 @@ func (r Result) byTag(tag string) *CallResult {
 
 // RunOpts: one execution of a scenario binary.
 type RunOpts struct {
-	Pkg    string `json:"pkg"`  // "." | "sub" | "sub/deep/er"
-	Trim   bool   `json:"trim"` // binary built with -trimpath
-	Cwd    string `json:"cwd"`  // "" = the package directory (what `go test` does)
-	Run    string `json:"run"`  // -test.run
-	Count  int    `json:"count"`
-	CI     bool   `json:"ci"`
-	Upd    string `json:"update_snaps"`
-	UpdSet bool   `json:"update_snaps_set"`
+	Pkg     string `json:"pkg"`  // "." | "sub" | "sub/deep/er"
+	Trim    bool   `json:"trim"` // binary built with -trimpath
+	Cwd     string `json:"cwd"`  // "" = the package directory (what `go test` does)
+	Run     string `json:"run"`  // -test.run
+	Count   int    `json:"count"`
+	CI      bool   `json:"ci"`
+	Upd     string `json:"update_snaps"`
+	UpdSet  bool   `json:"update_snaps_set"`
+	GoFlags string `json:"goflags"` // GOFLAGS in the environment of the test process (as under `go test`)
 }
 
 var scnRoot = os.Getenv("VERIF_BB_SCN") // the scratch copy of the scenario module of this shard
@@ -138,6 +139,9 @@ func runProgram(o RunOpts, s Scenario) (Result, string, error) {
 	}
 	if o.UpdSet {
 		cmd.Env = append(cmd.Env, "UPDATE_SNAPS="+o.Upd)
+	}
+	if o.GoFlags != "" {
+		cmd.Env = append(cmd.Env, "GOFLAGS="+o.GoFlags)
 	}
 	var out bytes.Buffer
 	cmd.Stdout = &out
